@@ -375,6 +375,24 @@ func run(c *core.Ctx) {
 			}
 		}
 	}
+	for bi, n := range gen.BoundaryLens() {
+		if !c.Mine(bi) {
+			continue
+		}
+		for _, sp := range []string{"..", "/..", ".", "%2e%2e", "?x", "#f", "%", "a%2fb", "100%25"} {
+			checkFormat(c, "/a/"+gen.Pad("b", n)+"/%{x}/z", map[string]string{"x": sp}, false)
+			checkFormat(c, "https://example.com/%{x}.%{y}", map[string]string{"x": gen.Pad("a", n) + sp, "y": sp}, false)
+			checkAppend(c, "/a/"+gen.Pad("b/", n), sp)
+			checkParams(c, "https://example.com/app.js#/route?tab="+gen.Pad("1", n%9), map[string]string{"k": sp, gen.Pad("q", 1+n%4): "v"})
+			checkParams(c, "/static/"+gen.Pad("s", n%6)+"#?", map[string]string{"k": "v"})
+		}
+	}
+	for _, f := range []string{"https:/%{x}/lib.js", "https:/example.com/%{x}", "HTTPS:/%{x}", "https:///%{x}", "https:\\\\%{x}/", "http:/%{x}", "//%{x}/a", "///%{x}", "/%{x}", "about:blank%{x}", "about:blank#%{x}", "https://%{x}/", "https://a%{x}/b"} {
+		for _, a := range []string{"evil.example", "a", "/", "..", "evil.example/x"} {
+			checkFormat(c, f, map[string]string{"x": a}, false)
+			checkAppend(c, strings.ReplaceAll(f, "%{x}", ""), a)
+		}
+	}
 	r := c.Rng("gen")
 	n := c.N(600000, 10000000) / c.NShards
 	for i := 0; i < n; i++ {
